@@ -904,3 +904,110 @@ def c17_correspondence(v, lengths):
 for _lens in ((1, 2, 3, 4, 5), (6, 7), (8,), (9,)):
     LM.lemma("C17.spec-correspondence.len-%s" % "-".join(map(str, _lens)), props=["C17"])(
         lambda v, _l=_lens: c17_correspondence(v, _l))
+
+
+# ---------------------------------------------------------------------------------------------------- C06 (tamper evidence)
+
+@LM.lemma("C06.same-header-same-bytes", props=["C06"])
+def c06_commit(v):
+    """two blocks that pass full validation on the same chain state and have the same header have the same encoding: no
+    alteration of the transaction part of an accepted block is accepted.  Route: the header's evidence equals the
+    recomputation, whose block_hash is blake2(summary_hash + chain_sample + serialize_list(transactions)); blake2 injective
+    (A-HASH, stated as hypothesis on exactly the two arguments); the prefix has the same length in both."""
+    from pyvc import CLS
+    from pyvc.proof import Proof
+    st = _lemma_state(v)
+    b1 = v.fresh('block', CLS('Block'))
+    b2 = v.fresh('block2', CLS('Block'))
+    cs = v.fresh('coinstate', CLS('CoinState'))
+    st.frame.vars.update(block=b1, block2=b2, coinstate=cs)
+    G = GH.ghosts
+    P = Proof(v, st, "C06:lemma:")
+    P.assume('ok1', G['ok_in_state'](v, st, b1, cs).t)
+    P.assume('ok2', G['ok_in_state'](v, st, b2, cs).t)
+    P.assume('full', "block.header.summary.height > 163000")
+    P.assume('same-header', "same(block.header, block2.header)")
+    for k, (bn, blk) in enumerate((('block', b1), ('block2', b2))):
+        P.use('val%d' % k, CQ + "validate_block_in_coinstate", block=blk, coinstate=cs)
+        st.frame.vars['txs%d' % k] = v.spec_value("%s.transactions" % bn, st)
+        st.frame.vars['sum%d' % k] = v.spec_value("%s.header.summary" % bn, st)
+        st.frame.vars['h%d' % k] = v.spec_value("%s.header.summary.height" % bn, st)
+        # the three calls below are made inside validate_block_in_coinstate, which returned: so did they
+        P.use('pow%d' % k, CQ + "construct_pow_evidence", _returned=True, coinstate=cs, summary=st.frame.vars['sum%d' % k],
+              current_height=st.frame.vars['h%d' % k], transactions=st.frame.vars['txs%d' % k])
+        st.frame.vars['sh%d' % k] = v.spec_value("construct_summary_hash(sum%d, h%d)" % (k, k), st)
+        P.use('sh%d' % k, CQ + "construct_summary_hash", _returned=True, summary=st.frame.vars['sum%d' % k], current_height=st.frame.vars['h%d' % k])
+        P.use('after%d' % k, CQ + "construct_pow_evidence_after_scrypt", _returned=True, summary_hash=st.frame.vars['sh%d' % k], coinstate=cs,
+              summary=st.frame.vars['sum%d' % k], current_height=st.frame.vars['h%d' % k],
+              transactions=st.frame.vars['txs%d' % k])
+        st.frame.vars['ev%d' % k] = v.spec_value(
+            "construct_pow_evidence_after_scrypt(sh%d, coinstate, sum%d, h%d, txs%d)" % (k, k, k, k), st)
+        st.frame.vars['pre%d' % k] = v.spec_value("sh%d + ev%d.chain_sample + serialize_list(txs%d)" % (k, k, k), st)
+    # A-HASH (injective) on the two hashed strings
+    v.assumptions_used.add('A-HASH')
+    P.assume('blake2-injective-here', "implies(blake2(pre0) == blake2(pre1), pre0 == pre1)")
+    P.have('same-hashed-string', "pre0 == pre1",
+           using=['ok1', 'ok2', 'full', 'same-header', 'val0', 'val1', 'pow0', 'pow1', 'after0', 'after1', 'blake2-injective-here'])
+    P.have('same-prefix', "sh0 == sh1 and ev0.chain_sample == ev1.chain_sample and len(sh0) == 32",
+           using=['same-header', 'full', 'ok1', 'ok2', 'val0', 'val1', 'pow0', 'pow1', 'after0', 'after1', 'sh0', 'sh1'])
+    P.have('same-transaction-bytes', "serialize_list(txs0) == serialize_list(txs1)", using=['same-hashed-string', 'same-prefix'])
+    # ... which are the list codec's bytes (serialize_list#C06), the tail of the block's encoding (Block.stream_serialize)
+    for k in (0, 1):
+        P.use('list%d' % k, "skepticoin.serialization.serialize_list#C06", _returned=True, lst=st.frame.vars['txs%d' % k])
+    e0 = v.spec_value("G.enc_of(block)", st)
+    e1 = v.spec_value("G.enc_of(block2)", st)
+    P.have('same-encoding', e0.t == e1.t, using=['same-transaction-bytes', 'list0', 'list1', 'same-header'], axioms='ground')
+    # vacuity: the hypotheses (and everything instantiated from the contracts) are satisfiable together
+    r, _ = v.check_sat(list(st.pc), 10000)
+    v.vacuity.append(("C06:lemma:hypotheses-satisfiable", r))
+
+
+@LM.lemma("C06.same-id-same-header", props=["C06"])
+def c06_id(v):
+    """two blocks (ids as proved under C07: sha256d of the header's encoding) with the same id have the same header - under
+    collision resistance of sha256d and injectivity of the header encoding (a consequence of encode-then-decode, which C07
+    only exercises): both stated as hypotheses on exactly these terms"""
+    from pyvc import CLS
+    from pyvc.proof import Proof
+    st = _lemma_state(v, 'skepticoin.datatypes')
+    b1 = v.fresh('block', CLS('Block'))
+    b2 = v.fresh('block2', CLS('Block'))
+    st.frame.vars.update(block=b1, block2=b2)
+    P = Proof(v, st, "C06:lemma:id:")
+    P.assume('ids-ok', "G.id_ok(block) and G.id_ok(block2)")
+    v.current = 'lemma:C06.same-id-same-header#C07'        # the id functions under their C07 contracts
+    P.use('id1', "skepticoin.datatypes.Block.hash#C07", _returned=True, self=b1)      # the ids the node assigned
+    P.use('id2', "skepticoin.datatypes.Block.hash#C07", _returned=True, self=b2)
+    st.frame.vars['e1'] = v.spec_value("block.header.serialize()", st)
+    st.frame.vars['e2'] = v.spec_value("block2.header.serialize()", st)
+    v.assumptions_used.add('A-HASH')
+    P.assume('sha256d-injective-here', "implies(sha256d(e1) == sha256d(e2), e1 == e2)")
+    P.assume('header-encoding-injective-here', "implies(e1 == e2, same(block.header, block2.header))")
+    P.have('same-id-same-header', "implies(block.hash() == block2.hash(), same(block.header, block2.header))",
+           using=['id1', 'id2', 'sha256d-injective-here', 'header-encoding-injective-here'])
+    v.current = 'lemma:C06.same-id-same-header'
+
+
+@LM.lemma("C06.every-field-is-encoded", props=["C06", "C07"])
+def c06_fields(v):
+    """every field a consensus object holds is written by its stream_serialize (scan of the real classes): a field left
+    out of the encoding would be content that neither the id nor the proof-of-work evidence commits to"""
+    import ast, inspect, textwrap
+    import skepticoin.datatypes as D
+    import skepticoin.signing as S
+    st = State()
+    exempt = {'cached_hash'}        # derived from the encoding (C07 ID), not content
+    for cls in (D.OutputReference, D.Input, D.Output, D.Transaction, D.PowEvidence, D.BlockSummary, D.BlockHeader, D.Block,
+                S.SECP256k1PublicKey, S.SECP256k1Signature, S.CoinbaseData, S.SignableEquivalent):
+        init = cls.__dict__.get('__init__')
+        fields = set()
+        if init is not None:
+            for n in ast.walk(ast.parse(textwrap.dedent(inspect.getsource(init)))):
+                if isinstance(n, ast.Attribute) and isinstance(n.ctx, ast.Store) and isinstance(n.value, ast.Name) and n.value.id == 'self':
+                    fields.add(n.attr)
+        ser = ast.parse(textwrap.dedent(inspect.getsource(cls.__dict__['stream_serialize'])))
+        read = {n.attr for n in ast.walk(ser) if isinstance(n, ast.Attribute) and isinstance(n.ctx, ast.Load)
+                and isinstance(n.value, ast.Name) and n.value.id == 'self'}
+        missing = sorted(fields - read - exempt)
+        v.oblige(st, z3.BoolVal(not missing), "C06:lemma:every-field-encoded:" + cls.__name__,
+                 "fields of %s not written by its stream_serialize: %s" % (cls.__name__, missing))
